@@ -19,6 +19,9 @@ pub enum Shape {
     Clustered(u8),
     /// log-uniform over the given number of decades (both signs)
     LogUniform(u16),
+    /// one value carrying `pct` percent of the stream inside a cloud of distinct values (uniform over [0,1), or,
+    /// for odd pct, concentrated within 1e-3 of the atom): rank / quantile next to a heavy atom
+    AtomInCloud(u8),
     /// both ends of the finite f64 range (|v| within a few binades of f64::MAX, both signs, +-MAX itself), mixed
     /// with a few small values: differences and sums of neighbouring values overflow. Not scaled or shifted.
     Extreme,
@@ -44,6 +47,7 @@ pub fn shape_strategy() -> impl Strategy<Value = Shape> {
         2 => (1u8..=8).prop_map(Shape::Clustered),
         1 => (1u16..=40).prop_map(Shape::LogUniform),
         1 => Just(Shape::Extreme),
+        2 => (2u8..=90).prop_map(Shape::AtomInCloud),
     ]
 }
 
@@ -98,6 +102,18 @@ pub fn gen_values(r: &Run) -> Vec<f64> {
                 let e = (sm.unit() - 0.5) * *dec as f64;
                 let s = if sm.below(2) == 0 { 1.0 } else { -1.0 };
                 out.push(s * 10f64.powf(e));
+            }
+        }
+        Shape::AtomInCloud(pct) => {
+            let atom = (sm.unit() * 16.0).floor() / 16.0 + 1.0 / 32.0;
+            for _ in 0..n {
+                if sm.below(100) < *pct as u64 {
+                    out.push(atom);
+                } else if pct % 2 == 1 {
+                    out.push(atom + (sm.unit() - 0.5) * 2e-3);
+                } else {
+                    out.push(sm.unit());
+                }
             }
         }
         Shape::Extreme => {
